@@ -93,6 +93,14 @@ def run_case(ctx, case):
         expect = {'stdout': 'test_stdout', 'stderr': 'test_stderr', 'status': 'test_exit_code'}.get(t) or G.test_name_for_file(m['name'])
         facts = {'mutation': m, 'failed_tests': res.failed, 'status': res.status, 'stderr_tail': res.err[-500:], 'argv': g.argv}
         mech = {'target': t, 'how': m['how'], 'kind': spec['files'][m['file']]['kind'] if t == 'file' else None}
+        if t == 'file' and m['how'] in ('alter', 'append') and spec['files'][m['file']]['kind'] == 'binary':
+            old_b = bytes.fromhex(spec['files'][m['file']]['hex'])
+            new_b = bytes.fromhex(GC.mutated(spec, m)['files'][m['file']]['hex'])
+            if old_b.decode('latin-1').splitlines() == new_b.decode('latin-1').splitlines() and res.status == 0:
+                # gentest may classify a tiny "binary" file as text; text comparison is line-based, so a
+                # change confined to line-terminator characters is outside what it can see (C04's reading)
+                rec.unspecified('change confined to line-terminator characters of a file compared as text')
+                continue
         if blind:
             if not any(f.startswith(expect) for f in res.failed):
                 rec.note('documented blind spot: change on a line carrying a machine/time token not noticed')
